@@ -87,10 +87,15 @@ func installSeams() {
 				if mf != nil {
 					size = mf.Size()
 				}
+				// small explicit buffer: io.Copy would allocate 32 KiB per call
+				buf := make([]byte, 512)
 				if key == "" || size < 2 {
-					return io.Copy(dst, src)
+					return io.CopyBuffer(dst, src, buf)
 				}
-				n1, err := io.CopyN(dst, src, size/2)
+				n1, err := io.CopyBuffer(dst, io.LimitReader(src, size/2), buf)
+				if err == nil && n1 < size/2 {
+					err = io.EOF
+				}
 				if err != nil {
 					if err == io.EOF {
 						return n1, nil
@@ -99,7 +104,7 @@ func installSeams() {
 				}
 				// window: half of the bytes are on disk
 				hub.Handle(ptCopyMid, key)
-				n2, err := io.Copy(dst, src)
+				n2, err := io.CopyBuffer(dst, src, buf)
 				return n1 + n2, err
 			})
 	})
@@ -348,12 +353,15 @@ func (r *rig) klock(key string) *sync.Mutex {
 
 // ---- history ----
 
-func (r *rig) record(client int, in opIn, out opOut, call, ret, readEnd int64, note string) hop {
+func (r *rig) record(client int, in opIn, out opOut, call, ret, readEnd int64, note string, ref ...int) hop {
 	in.K = in.Kind.String()
 	out.R = out.Res.String()
 	r.hmu.Lock()
 	defer r.hmu.Unlock()
 	h := hop{ID: r.nextI, Client: client, In: in, Out: out, Call: call, Ret: ret, ReadEnd: readEnd, Note: note}
+	if len(ref) > 0 {
+		h.Ref = ref[0]
+	}
 	if r.stepMode {
 		h.At = r.position(shortKey(in.Key))
 	}
@@ -592,7 +600,7 @@ func (r *rig) readHandle(c int, hd *handle) hop {
 	} else {
 		note += " content: " + why
 	}
-	return r.record(c, opIn{Kind: opHRead, Key: key, Scope: scopeComplete}, out, call, ret, ret, note)
+	return r.record(c, opIn{Kind: opHRead, Key: key, Scope: scopeComplete}, out, call, ret, ret, note, hd.open.ID)
 }
 
 // ---- step mode ----
@@ -674,7 +682,11 @@ func (r *rig) reapSentinels() {
 
 // mutated must be called after every client operation that may enqueue flush
 // work.
-func (r *rig) mutated() { r.mutCount++ }
+func (r *rig) mutated() {
+	if r.stepMode {
+		r.mutCount++
+	}
+}
 
 func (r *rig) hasQueuedRealWork() bool {
 	for _, k := range tiered.VerifC09FlusherTracked(r.st) {
@@ -799,4 +811,45 @@ func (r *rig) quiesce() bool {
 		_ = r.st.Delete(k)
 	}
 	return true
+}
+
+// ---- quiescent observations of the disk store alone ----
+
+func (r *rig) doDRead(c int, short string) hop {
+	key := r.key(short)
+	r.mark("DiskRead", short)
+	call := stamp()
+	f, err := r.disk.ScopeComplete().Open(key)
+	res, es := classifyErr(err)
+	out := opOut{Res: res, Err: es}
+	note := ""
+	if err == nil {
+		b, rerr := io.ReadAll(f)
+		f.Close()
+		if rerr != nil {
+			note = "read-error: " + rerr.Error()
+		} else if g, why := r.gens.attribute(b); g != 0 {
+			out.Gen = g
+		} else {
+			note = "content: " + why
+		}
+	}
+	ret := stamp()
+	return r.record(c, opIn{Kind: opDRead, Key: key, Scope: scopeComplete}, out, call, ret, 0, note)
+}
+
+func (r *rig) doDGetMD(c int, short string, md int) hop {
+	key := r.key(short)
+	r.mark("DiskGetMD", short)
+	m := mdNew(md, 0)
+	call := stamp()
+	ok, err := r.disk.GetMetadata(key, m)
+	ret := stamp()
+	res, es := classifyErr(err)
+	out := opOut{Res: res, Err: es}
+	if err == nil && ok {
+		out.Found = true
+		out.Val = mdValue(md, m)
+	}
+	return r.record(c, opIn{Kind: opDGetMD, Key: key, MD: md}, out, call, ret, 0, "")
 }
